@@ -307,6 +307,13 @@ Lemma source_counter_shape :
   Gen.C05.put_replace_guard = true /\ Gen.C05.id_increment_is_last_plus_one = true.
 Proof. repeat split; reflexivity. Qed.
 
+(** nothing but Queue.Put reaches the id generator, and the generator's only store write is the
+    one of IncrementNextID (so Remove / save / SetElectedGasEstimate ... cannot move the counter) *)
+Lemma counter_written_by_put_only :
+  Gen.C05.id_generator_used_by_put_only = true /\ Gen.C05.id_generator_uses_in_queue = 1 /\
+  Gen.C05.id_generator_store_writes = 1.
+Proof. repeat split; reflexivity. Qed.
+
 (** ---- non-vacuity ---- *)
 Example ids_sample :
   let ops := [OPut 0 0 10; OPut 1 0 11; OPut 0 1 12; ORemove 1 2; OPut 1 0 13; OPut 1 1 14] in
